@@ -443,6 +443,13 @@ class BuiltinMixin:
             return [Ev(st, SeqV(v.t, v.wrap, v.unwrap, "list", v.ident))]
         if hasattr(args[0], "to_list"):
             return args[0].to_list(self, st)
+        if isinstance(args[0], OpaqueV):
+            # list(x) of a caller-supplied iterable: some list of unknown length and elements (requires: x is iterable)
+            from . import ghost as _g
+            self.assumption("list(x) of an argument annotated Iterable[...]: x is iterable (a non-iterable is a TypeError input error)")
+            n = z3.Int(fresh_name("n_listed"))
+            st.assume(n >= 0)
+            return [Ev(st, _g.new_pyarr(st, None, n))]
         raise OutOfReach("list() of %s" % args[0].kind)
 
     def bi_dict(self, st, args, kwargs, fx):
@@ -450,8 +457,14 @@ class BuiltinMixin:
             return [Ev(st, st.new_dict([]))]
         if args and hasattr(args[0], "to_dict"):
             return args[0].to_dict(self, st)
-        if args and isinstance(args[0], ZipV):
+        if args and isinstance(args[0], ZipV) and len(args[0].parts) == 2:
+            from . import ghost as _g
             a, b = args[0].parts
+            if isinstance(a, _g.BytesArrV) and isinstance(b, _g.PyArrV):
+                wa, wn = a.get(st)
+                m, _item = b.iter_view(self, st)          # zip iterates its second argument (one-shot iterators are consumed)
+                oa, _on = b.get(st)
+                return [Ev(st, _g.RemapV(wa, wn, oa, m))]
             ia, ib = self.iter_items(a, st), self.iter_items(b, st)
             if ia is not None and ib is not None:
                 d = st.new_dict([])
@@ -549,6 +562,13 @@ class BuiltinMixin:
 
     def bi_time_time(self, st, args, kwargs, fx):
         raise OutOfReach("time.time() without a clock hook")
+
+    def me_func_fromkeys(self, selfv, st, args, kwargs, fx):
+        """dict.fromkeys(seq): only its key order is modelled (first occurrences, in order) - see ghost.DedupV"""
+        if not (selfv.what == "builtin" and selfv.name == "dict" and len(args) == 1 and not kwargs):
+            raise OutOfReach("fromkeys on %r" % (selfv,))
+        from . import ghost as _g
+        return [Ev(st, _g.DedupV(args[0]))]
 
     # ------------------------------------------------------------------ methods of builtin kinds
     def call_method(self, selfv, name, st, args, kwargs, fx, site):
